@@ -31,7 +31,7 @@ class Monitor(object):
     def reset(self):
         self.cb = 0              # walker callback invocations
         self.cb_by = {}          # walker class name -> invocations
-        self.per_node = {}       # (id(walker), id(node)) -> invocations
+        self.per_node = {}       # (walker, node) -> invocations (objects, so ids are never reused)
         self.cb_max = 0
         self.cb_max_at = None
         self.push = 0
@@ -57,7 +57,7 @@ class Monitor(object):
         self.cb += 1
         n = type(walker).__name__
         self.cb_by[n] = self.cb_by.get(n, 0) + 1
-        k = (id(walker), id(formula))
+        k = (_Ref(walker), formula)
         c = self.per_node.get(k, 0) + 1
         self.per_node[k] = c
         if c > self.cb_max:
@@ -71,21 +71,66 @@ class Monitor(object):
                 "getexpr": self.getexpr, "calls": self.calls, "by": dict(self.cb_by)}
 
     # -- python-call budget ---------------------------------------------------------------
+    # sys.monitoring (3.12+, PY_START events: one per Python-level call) is about half as
+    # expensive as sys.setprofile, which is the fallback
+    _tool = None
+
     def start_calls(self, limit):
         self.limit_calls = limit
         mon = self
+        sm = getattr(sys, "monitoring", None)
+        if sm is not None:
+            if Monitor._tool is None:
+                for tid in (3, 4, 2):
+                    try:
+                        sm.use_tool_id(tid, "c20-workmon")
+                    except ValueError:
+                        continue
+                    Monitor._tool = tid
+                    break
+
+                def on_start(code, offset):
+                    m = MON
+                    m.calls += 1
+                    if m.limit_calls is not None and m.calls > m.limit_calls:
+                        lim = m.limit_calls
+                        m.limit_calls = None
+                        raise BudgetExceeded("more than %d python-level calls" % lim)
+                sm.register_callback(Monitor._tool, sm.events.PY_START, on_start)
+            sm.set_events(Monitor._tool, sm.events.PY_START)
+            return
 
         def prof(frame, event, arg):
             if event == "call":
                 mon.calls += 1
-                if mon.calls > mon.limit_calls:
+                if mon.limit_calls is not None and mon.calls > mon.limit_calls:
+                    lim = mon.limit_calls
+                    mon.limit_calls = None
                     sys.setprofile(None)
-                    raise BudgetExceeded("more than %d python-level calls" % mon.limit_calls)
+                    raise BudgetExceeded("more than %d python-level calls" % lim)
         sys.setprofile(prof)
 
     def stop_calls(self):
-        sys.setprofile(None)
+        sm = getattr(sys, "monitoring", None)
+        if sm is not None and Monitor._tool is not None:
+            sm.set_events(Monitor._tool, 0)
+        else:
+            sys.setprofile(None)
         self.limit_calls = None
+
+
+class _Ref(object):
+    """identity key that keeps the walker alive (walkers may define __eq__/__hash__)"""
+    __slots__ = ("o",)
+
+    def __init__(self, o):
+        self.o = o
+
+    def __hash__(self):
+        return id(self.o)
+
+    def __eq__(self, other):
+        return self.o is other.o
 
 
 MON = Monitor()
